@@ -626,6 +626,13 @@ class CopyEqualsByKind(Contract):
                     return f"copying a {case['kind']} changed the source ({case})"
                 # the copy is edited like any entity
                 try:
+                    if case["kind"] == "drillhole" and isinstance(new.cells, np.ndarray) and new.cells.size:
+                        # the interval cells the copy hands out, overwritten in place and put back
+                        saved = new.cells.copy()
+                        new.cells[...] = 0
+                        if self._describe(obj) != before:
+                            return f"overwriting the interval cells of the copy of a drillhole in place changed the source's cells ({case})"
+                        new.cells[...] = saved
                     if case["kind"] == "drillhole":
                         new.add_data({"extra_log": {"depth": np.array([5.0, 15.0, 55.0]), "values": np.arange(3.0)}})
                         seen = np.asarray(new.get_data("extra_log")[0].values, dtype=float)
@@ -636,6 +643,17 @@ class CopyEqualsByKind(Contract):
                         if isinstance(v, np.ndarray) and v.dtype.kind == "f" and len(v):
                             c.values = v + 1000.0
                     new.allow_delete = not new.allow_delete
+                    # the arrays the copy hands out are its own: edited in place, they change nothing in the source
+                    for attr in ("vertices", "cells", "surveys", "u_cell_delimiters", "v_cell_delimiters", "z_cell_delimiters", "layers", "prisms", "octree_cells"):
+                        if not hasattr(type(new), attr):
+                            continue
+                        arr = getattr(new, attr, None)
+                        if isinstance(arr, np.ndarray) and arr.size and arr.flags.writeable:
+                            if arr.dtype.names:
+                                for fld in arr.dtype.names:
+                                    arr[fld][...] = arr[fld][::-1].copy()
+                            else:
+                                arr[...] = arr[::-1].copy() if len(arr) > 1 else arr + 1
 
                     def scribble(node):  # nested records of the copy's metadata are edited in place
                         if isinstance(node, dict):
